@@ -1380,3 +1380,27 @@ package pipeline
 //@     requires nnew == nstart + 1
 //@     preserves Pipeline, processor, *processor
 //@     set nstart := nstart + 1
+
+// ---------------------------------------------------------------------------
+// C04: the streamer's heartbeat.  Every round, unless stopping: the blocked list is
+// copied under blockedMu into a scratch slice of this goroutine, the lock is released,
+// and tryUnblock is called on every stream of the copy - outside blockedMu (tryUnblock
+// takes the stream lock and then blockedMu through isBlocked; a woken owner holds the
+// stream lock and takes blockedMu in resetBlocked: calling it under blockedMu inverts
+// the order and deadlocks).
+
+//@ func (*streamer).heartbeat
+//@   ghost ntry int = 0
+//@   ghost nsnap int = 0
+//@   loop 1 invariant !held(s.blockedMu)
+//@   loop 2 invariant !held(s.blockedMu) && -1 <= rangeindex && rangeindex < len(streams) && ntry == rangeindex + 1
+//@   loop 1 iter-ensures ntry == len(streams)
+//@   setat "streams = streams[:0]" ntry := 0
+//@   callee Sleep(d)
+//@     pure
+//@   callee Load() (r)
+//@     pure
+//@   callee tryUnblock() (r)
+//@     requires !held(s.blockedMu) && 0 <= rangeindex && rangeindex < len(streams) && recv == streams[rangeindex] && ntry == rangeindex
+//@     preserves streamer, *stream
+//@     set ntry := ntry + 1
